@@ -31,8 +31,8 @@ def gen_params(rng):
         p["hanging_indent"] = rng.choice(["never", "auto", "always"])
     if rng.random() < 0.2:
         p["indent"] = rng.choice([2, 4, 8])
-    if rng.random() < 0.2:
-        p["separate_from_imports"] = rng.choice([True, False])
+    if rng.random() < 0.45:
+        p["separate_from_imports"] = rng.choice([True, False, False])   # False is the tidy-imports CLI default
     if rng.random() < 0.15:
         p["align_future"] = rng.choice([True, False])
     return p
@@ -83,8 +83,23 @@ def make_params(p):
 
 
 def gen_rewriter_case(rng, tool=None, **kw):
+    import scenarios
     text, info = gen_source.gen_module(rng, max_items=rng.choice([2, 4, 6]), **kw)
     known, mand = gen_db(rng)
+    if rng.random() < 0.3:
+        snippet, k2, m2 = rng.choice(scenarios.SCENARIOS)(rng)
+        r = rng.random()
+        if snippet.startswith(("#!", "# licence", '"""', "'''", "b'", "from __future__")) or r < 0.4:
+            cand = snippet if r < 0.7 else snippet + text
+        else:
+            cand = (text if text.endswith("\n") else text + "\n") + snippet
+        try:
+            compile(cand if cand.endswith("\n") else cand + "\n", "<scn>", "exec", dont_inherit=True)
+            text = cand
+            known = list(dict.fromkeys(known + k2))
+            mand = list(dict.fromkeys(mand + m2))
+        except (SyntaxError, ValueError):
+            pass
     flags = dict(add_missing=rng.random() < 0.85, remove_unused=rng.random() < 0.85, add_mandatory=rng.random() < 0.8)
     return dict(text=text, tool=tool or rng.choice(TOOLS[:2] + TOOLS[:2] + TOOLS), params=gen_params(rng),
                 known=known, mandatory=mand, flags=flags)
